@@ -313,10 +313,12 @@ Definition data_objects (s : state) : res (list ditem) :=
 Definition data_children (s : state) : res (list ditem) :=
   concat_res (map_res (fun k => if in_data (s_data s) k then Ok [] else mod_item s k) all_cls).
 
-(* write_to_file as a sequence of steps; this list is the order of the source (mcnp_problem.py) *)
-Inductive step := StCells | StSurfaces | StData | StChildren | StTerminate | StFinalBlank.
+(* write_to_file as a sequence of steps; this list is the order of the source (mcnp_problem.py); Properties/C09.v
+   checks it against the list that harness/translate_writer.py extracts from the source on every run (Gen/Writer.v).
+   The last StTerminate is the extra blank line that ends the file. *)
+Inductive step := StCells | StSurfaces | StData | StChildren | StTerminate.
 Definition write_steps : list step :=
-  [StCells; StTerminate; StSurfaces; StTerminate; StData; StChildren; StTerminate; StFinalBlank].
+  [StCells; StTerminate; StSurfaces; StTerminate; StData; StChildren; StTerminate; StTerminate].
 
 Inductive event :=
 | EvCell (n : Z) (es : list entry)
@@ -334,10 +336,11 @@ Definition run_step (s : state) (st : step) : res (list event) :=
   | StData => match data_objects s with Err e => Err e | Ok d => Ok (map EvData d) end
   | StChildren => match data_children s with Err e => Err e | Ok d => Ok (map EvData d) end
   | StTerminate => Ok [EvBlank]
-  | StFinalBlank => Ok [EvBlank]
   end.
 
-Definition write_events (s : state) : res (list event) := concat_res (map_res (run_step s) write_steps).
+Definition write_events_with (steps : list step) (s : state) : res (list event) :=
+  concat_res (map_res (run_step s) steps).
+Definition write_events (s : state) : res (list event) := write_events_with write_steps s.
 
 (* the same output, structured: the cell cards and the content of the data block *)
 Record wout := mkW { w_cards : list (Z * list entry); w_data : list ditem }.
@@ -716,9 +719,17 @@ Definition read (f : file) : res state :=
 Definition subset (a b : list particle) : bool := forallb (fun q => mem q b) a.
 Fixpoint nodup_p (l : list particle) : bool :=
   match l with [] => true | x :: r => andb (negb (mem x r)) (nodup_p r) end.
-(* the classifier of a tree names exactly the particles that share the tree *)
-Definition group_ok (g : igroup) : bool := andb (subset (fst g) (t_parts (snd g))) (subset (t_parts (snd g)) (fst g)).
-Definition imp_parts_ok (g : list igroup) : bool := andb (nodup_p (ikeys g)) (forallb group_ok g).
+(* the classifiers of the trees partition the keys: a tree's classifier names the particles that share the tree,
+   only particles that have an importance here, and every particle it names has a tree with the same classifier
+   (true of trees parsed from a cell card, of trees pushed from a data-block card, and of any of them after a
+   value was set; false of a tree made by __setitem__ on a cell that has a _problem: its classifier is MODE) *)
+Definition parts_of (q : particle) (g : list igroup) : list particle :=
+  match ifind q g with Some t => t_parts t | None => [] end.
+Definition seteq (a b : list particle) : bool := andb (subset a b) (subset b a).
+Definition group_ok (g : list igroup) (gr : igroup) : bool :=
+  andb (andb (subset (fst gr) (t_parts (snd gr))) (subset (t_parts (snd gr)) (t_order (snd gr))))
+       (forallb (fun o => andb (mem o (ikeys g)) (seteq (parts_of o g) (t_parts (snd gr)))) (t_parts (snd gr))).
+Definition imp_parts_ok (g : list igroup) : bool := andb (nodup_p (ikeys g)) (forallb (group_ok g) g).
 (* no importance is held for a particle outside MODE (the blank instance's neutron tree) *)
 Definition imp_keys_ok (mode : list particle) (g : list igroup) : bool := subset (ikeys g) mode.
 Definition imp_cell_ok (s : state) : bool :=
